@@ -422,6 +422,12 @@ impl GwWorld {
                 Ok(Ok(Ok(e))) => (format!("ok U{e}"), String::new()),
                 _ => ("err".into(), String::new()),
             },
+            "gw.upgrade" | "gw.migrate" => {
+                let gw = self.gw.clone().unwrap();
+                let r = if t[0] == "gw.upgrade" { upgrade_step(&env, &gw, t[1]) } else { migrate_step(&env, &gw, t[1]) };
+                let _ = self.events();
+                r
+            }
             "gw.upgrade_migrate" => {
                 let gw = self.gw.clone().unwrap();
                 let r = upgrade_migrate(&env, &gw, t[1]);
